@@ -2558,6 +2558,21 @@ def bls : Bls12 ℚ ℚ ℚ ℚ where
   DT := primeD ℚ
   C := CycD.default (primeD ℚ)
 
+/-- the degenerate BLS12 parametrisation `x = 1`, `p = 1`, `r = 1` (trivial Frobenius and
+    conjugation, trivial cyclotomic subgroup), for the order statement -/
+def bls1 : Bls12 ℚ ℚ ℚ ℚ where
+  x := [1]
+  xIsNegative := false
+  twist := .D
+  coeffB := 4
+  BF := primeD ℚ
+  one := 1
+  K := K
+  oneG := 1
+  S := S
+  DT := primeD ℚ
+  C := trivCycD ℚ
+
 /-- a BN-shaped configuration over `ℚ` -/
 def bn : Bn ℚ ℚ ℚ ℚ where
   x := [2]
